@@ -971,7 +971,8 @@ class Exec:
                 'violations': violations, 'known_hits': known, 'stats': stats,
                 'states': sorted(states), 'derivations': derivations,
                 'schedule_digest': fpc([[(e.get('op'), e.get('resolved'),
-                                          e.get('outcome'), e.get('fault'),
+                                          (e.get('outcome') or [])[:2],
+                                          e.get('fault'),
                                           e.get('fired'), e.get('stored'))
                                          for e in events]]),
                 'digest': fpc([[(e.get('digest'), e.get('resolved'))
